@@ -5,6 +5,7 @@ import (
 	"encoding/json"
 	"fmt"
 	"os"
+	"runtime/pprof"
 	"sort"
 	"strings"
 	"time"
@@ -77,12 +78,19 @@ func main() {
 		fmt.Sscan(b, &s)
 		budget = time.Duration(s) * time.Second
 	}
+	if pf := os.Getenv("VERIF_CPUPROFILE"); pf != "" {
+		f, _ := os.Create(pf)
+		pprof.StartCPUProfile(f)
+		defer pprof.StopCPUProfile()
+	}
 	r := mc.NewRun(id, tier, budget, ck.replay)
 	if ck.level != "" {
 		r.Level = ck.level
 	}
 	ck.run(r)
-	os.Exit(r.Finish())
+	code := r.Finish()
+	pprof.StopCPUProfile()
+	os.Exit(code)
 }
 
 func mustJSON(v interface{}) json.RawMessage {
